@@ -79,6 +79,10 @@ def run_ipm_tool(tool, data, a, b, fa, fb, scratch):
         return f.read()
 
 
+def looks_blocked(data):
+    return data[1012:1014] == b'@@' and (len(data) < 2028 or data[2026:2028] == b'@@')
+
+
 WRITTEN = collections.Counter()
 
 
@@ -168,7 +172,8 @@ def ipm_cases(draw):
     a, b = draw(st.sampled_from(PAIRS))
     msgs = []
     raw = draw(st.booleans())
-    for _ in range(draw(uniform(1, 6))):
+    lookalike = not raw and draw(st.sampled_from([False, False, False, True]))
+    for _ in range(draw(uniform(1, 6)) if not lookalike else draw(uniform(2, 4))):
         if raw:
             m = draw(gen_iso.messages(PACKAGED, a, exact=True, pds_mode='none'))
             m = draw(noncanonical_carriers(a, m))
@@ -178,11 +183,14 @@ def ipm_cases(draw):
                 # a long record: several variable elements near their maximum, so that one record spans 2..6 blocks
                 for k in draw(st.lists(st.sampled_from(['DE54', 'DE72', 'DE111', 'DE127', 'DE63']), min_size=2, max_size=5, unique=True)):
                     m[k] = draw(gen_iso.tiled_text(a, draw(st.one_of(uniform(600, 999), st.just(999)))))
+        if lookalike and len(msgs) < 2:
+            # a long run of the 0x40 character across bytes 1012-1013 / 2026-2027: an unblocked file that looks blocked
+            m = {'MTI': m['MTI'], 'DE72': 'A' + bytes([0x40]).decode(a) * 996 + 'Z'}
         while len(refcodec.encode(PACKAGED, a, False, m)) > 6000:
             k = max((k for k in m if k != 'MTI'), key=lambda k: len(m[k]) if hasattr(m[k], '__len__') else 0)
             del m[k]
         msgs.append(m)
-    return a, b, draw(st.sampled_from(FORMATS)), draw(st.sampled_from(FORMATS)), msgs, raw
+    return a, b, draw(st.sampled_from(FORMATS)) if not lookalike else 'vbs', draw(st.sampled_from(FORMATS)), msgs, raw
 
 
 @st.composite
@@ -225,7 +233,8 @@ def hyp_ipm(ctx, n, many=False):
             binary = any('DE55' in m for m in msgs)
             ctx.case(key=harness.digest((a, b, fa, fb, msgs)), nontrivial=(a != b and (nonascii or binary)) or fa != fb,
                      labels=['ipm', 'class:raw-carriers' if raw else 'class:canonical', f'{a}->{b}', f'{fa}->{fb}',
-                             'has-DE55' if binary else 'no-DE55', 'non-ascii-text' if nonascii else 'ascii-text'])
+                             'has-DE55' if binary else 'no-DE55', 'non-ascii-text' if nonascii else 'ascii-text']
+                     + (['ipm-unblocked-source-looks-blocked'] if fa == 'vbs' and looks_blocked(refvbs.vbs([refcodec.encode(PACKAGED, a, False, m) for m in msgs])) else []))
             if len(ctx.samples) < 3:
                 ctx.sample({'tool': 'mci_ipm_encode / mideu convert', 'from': [a, fa], 'to': [b, fb], 'records': len(msgs), 'first': msgs[0]})
             tools = ['mci_ipm_encode']
@@ -249,6 +258,7 @@ def hyp_ipm(ctx, n, many=False):
     if not many:
         ctx.floor('ipm-source-file-written', 0.5, 'ipm')
         ctx.floor('mideu-convert', 0.05, 'ipm')
+        ctx.floor('ipm-unblocked-source-looks-blocked', 0.03, 'ipm')
         ctx.floor('class:raw-carriers', 0.15, 'ipm')
 
 
@@ -257,7 +267,8 @@ def hyp_param(ctx, n, many=False):
     try:
         strat = st.tuples(st.sampled_from(PAIRS), st.sampled_from(FORMATS), st.sampled_from(FORMATS),
                           st.lists(st.one_of(st.binary(min_size=1, max_size=80),
-                                             st.tuples(st.binary(min_size=1, max_size=9), uniform(1, 1100)).map(lambda t: (t[0] * 1100)[:t[1]]),
+                                             st.tuples(st.one_of(st.binary(min_size=1, max_size=9), st.just(b'@')), uniform(1, 1100)).map(lambda t: (t[0] * 1100)[:t[1]]),
+                                             st.sampled_from([1010, 1100, 2030, 2100]).map(lambda k: b'@' * k),
                                              st.tuples(st.binary(min_size=1, max_size=9),
                                                        st.one_of(uniform(1, 6000), st.sampled_from([1012, 2024, 2025, 3036, 3037, 4048, 6000]))
                                                        ).map(lambda t: (t[0] * 6000)[:t[1]])),
@@ -275,7 +286,8 @@ def hyp_param(ctx, n, many=False):
                 return
             nonascii = any(any(c > 127 for c in r) for r in records)
             ctx.case(key=harness.digest(('p', a, b, fa, fb, records)), nontrivial=(a != b and nonascii) or fa != fb,
-                     labels=['param', f'{a}->{b}', f'{fa}->{fb}'])
+                     labels=['param', f'{a}->{b}', f'{fa}->{fb}']
+                     + (['param-unblocked-source-looks-blocked'] if fa == 'vbs' and looks_blocked(refvbs.vbs(records)) else []))
             if len(ctx.samples) < 5:
                 ctx.sample({'tool': 'mci_ipm_param_encode / paramconv', 'from': [a, fa], 'to': [b, fb], 'records': [r[:20] for r in records[:3]]})
             for tool in ('mci_ipm_param_encode', 'mci_ipm_param_encode-cli'):
@@ -292,6 +304,7 @@ def hyp_param(ctx, n, many=False):
         shutil.rmtree(scratch, ignore_errors=True)
     if not many:
         ctx.floor('paramconv', 0.05, 'param')
+        ctx.floor('param-unblocked-source-looks-blocked', 0.01, 'param')
 
 
 def tasks(tier, seed):
